@@ -15,7 +15,7 @@ PROPERTY = {
                'later stage': 'overwrites the None-returning call with a scalar / deletes the nested call / overwrites the !eval - each by a symbolic boolean'},
     'outside': ['all 10! key orders', 'dynamic nodes inside included files'],
     'per_split_timeout': {'quick': 600, 'thorough': 1800},
-    'wall_budget': {'quick': 900, 'thorough': 3400},
+    'wall_budget': {'quick': 1500, 'thorough': 7000},
 }
 
 LINES = {
